@@ -911,7 +911,9 @@ class SetStat(Algo):
             stat = target.get_data(self.stat_name)
 
         t0 = target.now - self.lag
-        if t0 not in stat.index:
+        # an anchored offset (BDay(0), MonthEnd(0)) can roll forward: a stat
+        # published after today is not available today
+        if t0 > target.now or t0 not in stat.index:
             return False
 
         target.temp["stat"] = stat.loc[t0]
